@@ -1,24 +1,37 @@
 import ScryerModel.Proofs.ArithInt
+import ScryerModel.Proofs.ArithIntBits
 /-!
 # C01 — Integer arithmetic is exact at every magnitude
 
 Property theorems over the mechanism model `Model/ArithInt.lean` (which mirrors
 `arithmetic_ops.rs` branch by branch). `Num.val` is the mathematical integer a `Number`
 denotes; `Num.wf` says a fixnum payload is inside the 56-bit range. Every theorem is for all
-integers — no bound on magnitude. Only statements live here; lemmas are in `Proofs/ArithInt`.
+integers — no bound on magnitude. Only statements live here; lemmas are in `Proofs/ArithInt`
+(core Lean only) and `Proofs/ArithIntBits` (link to Mathlib's `Int.land/lor/xor`).
+
+The only side condition anywhere is the "fits in memory" condition of the shifts (`shrOk`,
+`shlOk`, collected over an expression by `InDomain`): shift counts are clamped to `usize::MAX`
+by the code, which is exact unless the operand has ≥ 2^64-1 significant bits (right shift) or
+the count itself exceeds `usize::MAX` with a non-zero operand (left shift; the exact result
+could not be stored). `C01_shl_side_condition_necessary` shows the latter is not an artefact.
 -/
 namespace Scryer.Arith
+
+/-! ## `+ - * - abs` -/
 
 /-- `+` is exact for every pair of representations, across the i64 and fixnum boundaries. -/
 theorem C01_add_exact (a b : Num) : (add a b).val = a.val + b.val ∧ (add a b).wf :=
   ⟨add_val a b, add_wf a b⟩
 
+/-- `-` (computed as `a + (-b)`) is exact. -/
 theorem C01_sub_exact (a b : Num) : (sub a b).val = a.val - b.val ∧ (sub a b).wf :=
   ⟨sub_val a b, sub_wf a b⟩
 
+/-- `*` is exact (checked i64 multiplication, else bignum). -/
 theorem C01_mul_exact (a b : Num) : (mul a b).val = a.val * b.val ∧ (mul a b).wf :=
   ⟨mul_val a b, mul_wf a b⟩
 
+/-- unary minus is exact (`checked_neg`, else bignum). -/
 theorem C01_neg_exact (a : Num) : (neg a).val = - a.val ∧ (neg a).wf :=
   ⟨neg_val a, neg_wf a⟩
 
@@ -26,10 +39,274 @@ theorem C01_neg_exact (a : Num) : (neg a).val = - a.val ∧ (neg a).wf :=
 theorem C01_abs_exact (a : Num) (h : a.wf) : (abs a).val = a.val.natAbs ∧ (abs a).wf :=
   ⟨abs_val a h, abs_wf a⟩
 
--- non-vacuity: the boundary cases really take the overflow branches
+/-! ## `//`, `rem`, `mod`, `div` -/
+
+/-- `//` truncates toward zero (`Int.tdiv`) for every representation pair, including
+`i64::MIN // -1`; `zero_divisor` exactly when the divisor denotes 0. -/
+theorem C01_idiv_exact (a b : Num) :
+    (idiv a b).map Num.val
+      = (if b.val = 0 then .error .zeroDivisor else .ok (Int.tdiv a.val b.val)) ∧
+    (∀ n, idiv a b = .ok n → n.wf) :=
+  ⟨idiv_spec a b, fun n h => idiv_wf a b n h⟩
+
+/-- `rem` is the truncating remainder (`Int.tmod`, sign of the dividend). -/
+theorem C01_rem_exact (a b : Num) :
+    (remainder a b).map Num.val
+      = (if b.val = 0 then .error .zeroDivisor else .ok (Int.tmod a.val b.val)) ∧
+    (∀ n, remainder a b = .ok n → n.wf) :=
+  ⟨remainder_spec a b, fun n h => remainder_wf a b n h⟩
+
+/-- `ibig_rem_floor` (residue modulo `|n2|`, shifted by `n2` when `n2 < 0` and the residue is
+non-zero) is the flooring modulus, for every `n1 n2`. -/
+theorem C01_ibigRemFloor_exact (n1 n2 : Int) : ibigRemFloor n1 n2 = Int.fmod n1 n2 :=
+  ibigRemFloor_eq n1 n2
+
+/-- `mod` is the flooring modulus (`Int.fmod`, sign of the divisor). -/
+theorem C01_mod_exact (a b : Num) :
+    (modulus a b).map Num.val
+      = (if b.val = 0 then .error .zeroDivisor else .ok (Int.fmod a.val b.val)) ∧
+    (∀ n, modulus a b = .ok n → n.wf) :=
+  ⟨modulus_spec a b, fun n h => modulus_wf a b n h⟩
+
+/-- `div`, computed as `(a - a mod b) // b`, is flooring division (`Int.fdiv`). -/
+theorem C01_div_exact (a b : Num) :
+    (intFloorDiv a b).map Num.val
+      = (if b.val = 0 then .error .zeroDivisor else .ok (Int.fdiv a.val b.val)) ∧
+    (∀ n, intFloorDiv a b = .ok n → n.wf) :=
+  ⟨intFloorDiv_spec a b, fun n h => intFloorDiv_wf a b n h⟩
+
+/-- each of the four operations raises `zero_divisor` iff the divisor denotes 0
+(and raises nothing else). -/
+theorem C01_zero_divisor_iff (a b : Num) :
+    (idiv a b = .error .zeroDivisor ↔ b.val = 0) ∧
+    (remainder a b = .error .zeroDivisor ↔ b.val = 0) ∧
+    (modulus a b = .error .zeroDivisor ↔ b.val = 0) ∧
+    (intFloorDiv a b = .error .zeroDivisor ↔ b.val = 0) :=
+  ⟨zeroDivisor_iff _ _ _ (idiv_spec a b), zeroDivisor_iff _ _ _ (remainder_spec a b),
+   zeroDivisor_iff _ _ _ (modulus_spec a b), zeroDivisor_iff _ _ _ (intFloorDiv_spec a b)⟩
+
+/-! ## gcd -/
+
+/-- the binary GCD on machine words: whenever it answers (no `checked_abs` failure) the answer
+is the mathematical gcd. Covers the loop invariant *and* fuel sufficiency of the model's three
+loops (64 halvings are enough below 2^64; the subtraction loop ends because `n1+n2` decreases). -/
+theorem C01_isizeGcd_exact (n1 n2 r : Int) (h1 : inI64 n1 = true) (h2 : inI64 n2 = true)
+    (h : isizeGcd n1 n2 = some r) : r = Int.gcd n1 n2 :=
+  isizeGcd_spec n1 n2 r h1 h2 h
+
+/-- `gcd` is exact for every representation pair (`gcd(0,0) = 0`). -/
+theorem C01_gcd_exact (a b : Num) (ha : a.wf) (hb : b.wf) :
+    (gcd a b).val = Int.gcd a.val b.val ∧ (gcd a b).wf :=
+  ⟨gcd_val a b ha hb, gcd_wf a b⟩
+
+/-! ## shifts -/
+
+/-- the specification's left shift is multiplication by a power of two. -/
+theorem C01_shlZ_exact (a : Int) (n : Nat) : shlZ a n = a * 2 ^ n := shlZ_eq a n
+
+/-- the specification's right shift is flooring division by a power of two. -/
+theorem C01_shrZ_exact (a : Int) (n : Nat) : shrZ a n = a / 2 ^ n := shrZ_eq a n
+
+/-- `checked_signed_shl`: whenever it answers, the answer is `x * 2^shift`, and (for an i64 `x`
+and a non-negative count) it lies inside i64 — so the machine shift did not wrap. -/
+theorem C01_checkedSignedShl_exact (x s r : Int) (h : checkedSignedShl x s = some r) :
+    r = x * 2 ^ s.toNat ∧ (inI64 x = true → 0 ≤ s → inI64 r = true) :=
+  ⟨checkedSignedShl_val x s r h, fun hx hs => checkedSignedShl_inI64 x s r hx hs h⟩
+
+/-- right shift of a fixnum by ANY count `n ≥ 0` is `⌊a / 2^n⌋`: below 64 the machine shift,
+from 64 on (also beyond the clamp to `u32::MAX`) the sign fill `if a < 0 then -1 else 0`. -/
+theorem C01_shrNonneg_fix_exact (a n : Int) (ha : inFix a = true) (hn : 0 ≤ n) :
+    (shrNonneg (.fix a) n).val = a / 2 ^ n.toNat :=
+  shrNonneg_fix_val a n ha hn
+
+/-- right shift by `n ≥ 0` is `⌊a / 2^n⌋`, for a bignum under the side condition `shrOk`
+(`n ≤ usize::MAX`, or `-2^(2^64-1) ≤ a < 2^(2^64-1)`); fixnums always satisfy it. -/
+theorem C01_shrNonneg_exact (a : Num) (n : Int) (ha : a.wf) (hn : 0 ≤ n) (h : shrOk a.val n) :
+    (shrNonneg a n).val = a.val / 2 ^ n.toNat ∧ (shrNonneg a n).wf :=
+  ⟨shrNonneg_val a n ha hn h, shrNonneg_wf a n⟩
+
+/-- no side condition is needed when the left operand is a fixnum. -/
+theorem C01_shrOk_of_fix (a n : Int) (ha : inFix a = true) : shrOk a n :=
+  Or.inr (fitsMem_of_inFix a ha)
+
+/-- left shift by `n ≥ 0` is `a * 2^n` under `shlOk` (`n ≤ usize::MAX ∨ a = 0`). -/
+theorem C01_shlNonneg_exact (a : Num) (n : Int) (hn : 0 ≤ n) (h : shlOk a.val n) :
+    (shlNonneg a n).val = a.val * 2 ^ n.toNat ∧ (shlNonneg a n).wf :=
+  ⟨shlNonneg_val a n hn h, shlNonneg_wf a n⟩
+
+/-- the `shlOk` side condition cannot be dropped: beyond the clamp a non-zero operand gives
+`a * 2^usize::MAX ≠ a * 2^n` (on the real machine the allocation fails first). -/
+theorem C01_shl_side_condition_necessary (a : Num) (n : Int) (hn : USIZE_MAX < n)
+    (ha : a.val ≠ 0) : (shlNonneg a n).val ≠ a.val * 2 ^ n.toNat :=
+  shlNonneg_clamped_ne a n hn ha
+
+/-- `>>` with any integer count: floor division for counts ≥ 0, and a negative count shifts
+the other way (`a >> -k = a << k`). -/
+theorem C01_shr_exact (a b : Num) (ha : a.wf) (hd : binDomain .shr a.val b.val) :
+    (shr a b).val
+      = (if b.val ≥ 0 then a.val / 2 ^ b.val.toNat else a.val * 2 ^ (-b.val).toNat) ∧
+    (shr a b).wf :=
+  ⟨shr_val a b ha hd, shr_wf a b⟩
+
+/-- `<<` with any integer count (negative counts shift right, flooring). -/
+theorem C01_shl_exact (a b : Num) (ha : a.wf) (hd : binDomain .shl a.val b.val) :
+    (shl a b).val
+      = (if b.val ≥ 0 then a.val * 2 ^ b.val.toNat else a.val / 2 ^ (-b.val).toNat) ∧
+    (shl a b).wf :=
+  ⟨shl_val a b ha hd, shl_wf a b⟩
+
+/-! ## bitwise -/
+
+/-- `/\`, `\/`, `xor` compute the two's-complement operation on the denoted integers. -/
+theorem C01_bitwise_exact (a b : Num) :
+    ((band a b).val = land a.val b.val ∧ (band a b).wf) ∧
+    ((bor a b).val = lor a.val b.val ∧ (bor a b).wf) ∧
+    ((bxor a b).val = lxor a.val b.val ∧ (bxor a b).wf) :=
+  ⟨⟨band_val a b, band_wf a b⟩, ⟨bor_val a b, bor_wf a b⟩, ⟨bxor_val a b, bxor_wf a b⟩⟩
+
+/-- `\` is `-a - 1`; the unchecked `Fixnum(!n)` stays inside the 56-bit range. -/
+theorem C01_bnot_exact (a : Num) (h : a.wf) : (bnot a).val = -a.val - 1 ∧ (bnot a).wf :=
+  ⟨bnot_val a, bnot_wf a h⟩
+
+/-- `land/lor/lxor/(-a-1)` are the bitwise operations of infinite two's complement: bit `i` of
+the result is the Boolean operation on bits `i` (Mathlib's `Int.testBit`), and they coincide
+with Mathlib's `Int.land`, `Int.lor`, `Int.xor`. -/
+theorem C01_bitwise_bits (a b : Int) (i : Nat) :
+    (land a b).testBit i = (a.testBit i && b.testBit i) ∧
+    (lor a b).testBit i = (a.testBit i || b.testBit i) ∧
+    (lxor a b).testBit i = (a.testBit i ^^ b.testBit i) ∧
+    (-a - 1).testBit i = !a.testBit i ∧
+    land a b = Int.land a b ∧ lor a b = Int.lor a b ∧ lxor a b = Int.xor a b :=
+  ⟨land_testBit a b i, lor_testBit a b i, lxor_testBit a b i, bnot_testBit a i,
+   land_eq_Int_land a b, lor_eq_Int_lor a b, lxor_eq_Int_xor a b⟩
+
+/-! ## min / max / sign -/
+
+/-- `min` and `max` return an argument with the minimal / maximal value (well-formed if both are). -/
+theorem C01_min_max_exact (a b : Num) (ha : a.wf) (hb : b.wf) :
+    ((min a b).val = (if a.val ≤ b.val then a.val else b.val) ∧ (min a b).wf) ∧
+    ((max a b).val = (if a.val ≤ b.val then b.val else a.val) ∧ (max a b).wf) :=
+  ⟨⟨min_val a b, min_wf a b ha hb⟩, ⟨max_val a b, max_wf a b ha hb⟩⟩
+
+/-- `sign` is the mathematical sign. -/
+theorem C01_sign_exact (a : Num) : (sign a).val = Int.sign a.val ∧ (sign a).wf :=
+  ⟨sign_val a, sign_wf a⟩
+
+/-! ## power -/
+
+/-- the specification's power function is `a ^ n`. -/
+theorem C01_powZ_exact (a : Int) (n : Nat) : powZ a n = a ^ n := powZ_eq a n
+
+/-- `i64::checked_pow`: whenever it answers, the answer is `a ^ n` and lies inside i64. -/
+theorem C01_checkedPow_exact (a : Int) (n : Nat) (r : Int) (h : checkedPow a n = some r) :
+    r = a ^ n := checkedPow_val a n r h
+
+/-- `binary_pow` (square-and-multiply, sign of the exponent ignored) is `n ^ |p|`; the fuel
+`log2 |p| + 1` of the model is sufficient. -/
+theorem C01_binaryPow_exact (n p : Int) : binaryPow n p = n ^ p.natAbs := binaryPow_eq n p
+
+/-- `^` on integers: `undefined` for `0 ^ negative` (checked first), `type_error(float, a)`
+for a negative exponent unless `a ∈ {1, -1}`, otherwise exactly `a ^ |b|` (so `(±1)^(-n) =
+(±1)^n`). -/
+theorem C01_intPow_exact (a b : Num) :
+    (intPow a b).map Num.val
+      = (if a.val = 0 ∧ b.val < 0 then .error .undefined
+         else if b.val < 0 ∧ a.val ≠ 1 ∧ a.val ≠ -1 then .error (.typeFloat a.val)
+         else .ok (a.val ^ b.val.natAbs)) ∧
+    (∀ n, intPow a b = .ok n → n.wf) := by
+  refine ⟨?_, fun n h => intPow_wf a b n h⟩
+  rw [intPow_spec]; simp only [specBin, powZ_eq]
+
+/-! ## whole expressions -/
+
+/-- every value the evaluator produces is well-formed (fixnum payloads stay in the 56-bit range). -/
+theorem C01_eval_wf (e : Expr) (n : Num) (h : eval e = .ok n) : n.wf := eval_wf e n h
+
+/-- The capstone: for every expression over every functor of the property, the mechanism
+(`eval`, over the two-representation `Num`) returns exactly what the specification over ℤ
+(`evalSpec`) says — same value or same error — provided the shifts inside `e` satisfy the
+"fits in memory" side condition `InDomain`. -/
+theorem C01_eval_exact (e : Expr) (h : InDomain e) : (eval e).map Num.val = evalSpec e :=
+  eval_exact e h
+
+/-- `InDomain` holds outright for expressions without shift operators. -/
+theorem C01_inDomain_of_no_shift (op : BinOp) (l r : Expr) (hl : InDomain l) (hr : InDomain r)
+    (h1 : op ≠ .shl) (h2 : op ≠ .shr) : InDomain (.bin op l r) := by
+  refine ⟨hl, hr, fun a b _ _ => ?_⟩
+  cases op <;> first | trivial | exact absurd rfl h1 | exact absurd rfl h2
+
+/-- … and for shifts whose count is a literal within `usize`. -/
+theorem C01_inDomain_of_small_count (l : Expr) (c : Int) (hl : InDomain l)
+    (hc : -USIZE_MAX ≤ c ∧ c ≤ USIZE_MAX) :
+    InDomain (.bin .shl l (.lit c)) ∧ InDomain (.bin .shr l (.lit c)) := by
+  have key : ∀ b, evalSpec (.lit c) = .ok b → (b ≤ USIZE_MAX ∧ -b ≤ USIZE_MAX) := by
+    intro b hb
+    simp only [evalSpec, Except.ok.injEq] at hb
+    subst hb; omega
+  constructor
+  · refine ⟨hl, trivial, fun a b _ hb => ?_⟩
+    have := key b hb
+    simp only [binDomain]; split
+    · exact Or.inl this.1
+    · exact Or.inl this.2
+  · refine ⟨hl, trivial, fun a b _ hb => ?_⟩
+    have := key b hb
+    simp only [binDomain]; split
+    · exact Or.inl this.1
+    · exact Or.inl this.2
+
+/-! ## non-vacuity: the boundary cases really take the overflow / clamp / sign-fill branches -/
+
+private instance : DecidableEq R := fun x y =>
+  match x, y with
+  | .ok a, .ok b => if h : a = b then isTrue (by rw [h]) else isFalse (fun e => h (by cases e; rfl))
+  | .error a, .error b =>
+      if h : a = b then isTrue (by rw [h]) else isFalse (fun e => h (by cases e; rfl))
+  | .ok _, .error _ => isFalse (fun e => nomatch e)
+  | .error _, .ok _ => isFalse (fun e => nomatch e)
+
 example : add (.fix (2^55 - 1)) (.fix 1) = .big (2^55) := by decide
 example : abs (.fix (-(2^55))) = .big (2^55) ∧ (Num.fix (-(2^55))).wf := ⟨by decide, by decide⟩
 example : neg (.fix (-(2^55))) = .big (2^55) := by decide
 example : mul (.fix (2^54)) (.fix (2^54)) = .big (2^108) := by decide
+-- `2^62 << 1`: `checked_signed_shl` refuses (leading_zeros = 1), the bignum path is taken
+example : checkedSignedShl (2^62) 1 = none := by decide
+example : eval (.bin .shl (.lit (2^62)) (.lit 1)) = .ok (.big (2^63)) := by decide
+example : shl (.fix (2^54)) (.fix 8) = .big (2^62) ∧ shl (.fix (2^54)) (.fix 9) = .big (2^63) :=
+  ⟨by decide, by decide⟩
+-- `(-(2^63)) // -1` does not overflow
+example : eval (.bin .idiv (.lit (-(2^63))) (.lit (-1))) = .ok (.big (2^63)) := by decide
+example : idiv (.fix I64_MIN) (.fix (-1)) = .ok (.big (2^63)) := by decide
+-- sign fill: `-1 >> 64`, counts beyond u32 and beyond usize, and a bignum shifted out entirely
+example : eval (.bin .shr (.lit (-1)) (.lit 64)) = .ok (.fix (-1)) := by decide
+example : shr (.fix (-5)) (.fix (2^32)) = .fix (-1) ∧ shr (.fix 5) (.big (2^64)) = .fix 0 :=
+  ⟨by decide, by decide⟩
+example : eval (.bin .shr (.lit (-(2^70))) (.lit 200)) = .ok (.big (-1)) := by decide
+example : InDomain (.bin .shr (.lit (-(2^70))) (.lit 200)) :=
+  (C01_inDomain_of_small_count (.lit (-(2^70))) 200 trivial (by decide)).2
+-- a negative count dispatches to the other direction
+example : shr (.fix 3) (.fix (-2)) = .fix 12 ∧ shl (.fix (-7)) (.fix (-1)) = .fix (-4) :=
+  ⟨by decide, by decide⟩
+-- division family: signs, and the error
+example : modulus (.fix (-7)) (.big 2) = .ok (.big 1) ∧ modulus (.fix 7) (.big (-2)) = .ok (.big (-1)) :=
+  ⟨by decide, by decide⟩
+example : intFloorDiv (.fix (-7)) (.fix 2) = .ok (.fix (-4)) ∧ idiv (.fix (-7)) (.fix 2) = .ok (.fix (-3)) :=
+  ⟨by decide, by decide⟩
+example : eval (.bin .mod (.lit 1) (.bin .sub (.lit (2^64)) (.lit (2^64)))) = .error .zeroDivisor := by
+  decide
+-- gcd: the word algorithm answers on the fixnum boundary; `checked_abs` fails only on i64::MIN
+example : gcd (.fix (2^55 - 1)) (.fix (-(2^55))) = .fix 1 ∧ gcd (.fix (-(2^55))) (.fix (2^54)) = .fix (2^54) :=
+  ⟨by decide, by decide⟩
+example : isizeGcd I64_MIN 6 = none ∧ isizeGcd 0 0 = some 0 := ⟨by decide, by decide⟩
+-- power: overflow of checked_pow falls through to binary_pow; the three error/unit cases
+example : intPow (.fix 2) (.fix 63) = .ok (.big (2^63)) ∧ intPow (.fix 2) (.fix 62) = .ok (.big (2^62)) :=
+  ⟨by decide, by decide⟩
+example : intPow (.fix 0) (.fix (-1)) = .error .undefined ∧
+    intPow (.fix 2) (.fix (-1)) = .error (.typeFloat 2) ∧
+    intPow (.fix (-1)) (.fix (-3)) = .ok (.big (-1)) := ⟨by decide, by decide, by decide⟩
+-- bitwise on mixed signs and representations; `\` at the fixnum edge
+example : band (.fix (-2)) (.fix (-5)) = .fix (-6) ∧ bor (.fix 5) (.big (2^64)) = .big (2^64 + 5) ∧
+    bxor (.big (-1)) (.fix 5) = .big (-6) ∧ bnot (.fix (2^55 - 1)) = .fix (-(2^55)) :=
+  ⟨by decide, by decide, by decide, by decide⟩
 
 end Scryer.Arith
